@@ -372,6 +372,8 @@ func main() {
 		}
 	}
 	ebytes()
+	ehead()
+	res.Info["E-head"] = "real time: the backend accepts the request and never answers, response_timeout = read_timeout = 2 s, proxy and translated route, both engines: the exchange must end within 9 s"
 	res.Info["E-bytes"] = "byte-exact delivery: 2 engines x stream_buffer_size {4 KiB, 8 KiB, 16 KiB, 64 KiB} x {SSE, JSON} x every ordered pair (triple thorough) of chunk sizes {3000, 6000, 8192, 12000, 20000} plus three longer schedules, non-repeating content, each chunk written after the client has the previous one"
 	res.Info["grid"] = map[string]any{"engines": []string{"sherpa", "olla"}, "profiles": []string{"auto", "streaming", "standard"}, "routes": []string{"proxy", "provider", "anthropic-passthrough", "anthropic-translation"},
 		"content_types": []string{"sse", "ndjson", "json", "octet-stream"}, "chunks": fmt.Sprintf("1..%d x sizes %v", maxChunks, sizes), "events": "none | pause(+29 s) | stall(+31 s) | client abort, after headers and between chunks",
